@@ -14,23 +14,40 @@ LONG_GRAMMAR_TIER = ["item", "class", "name", "xmin", "xmax", "intervals: size",
 
 
 def rule_long_order(rep, rule="C-order-long"):
-    idx = common.ctx()
-    fn = idx.get(R.LONG_W)
-    consts = [c for c in ast.walk(fn.node) if isinstance(c, ast.Constant) and isinstance(c.value, str) and c.value.endswith("\n")]
-    consts.sort(key=lambda c: (c.lineno, c.col_offset))
-    text = [c.value for c in consts]  # line templates only, in source order (dictionary keys are not emitted text)
-    joined = "".join(text)
+    """The comment text of the written long form (everything that is not a number, string or flag) carries Praat's
+    keys in the order of the format, and both forms start with Praat's two header lines.  Read off the symbolic
+    documents, not the emitter's syntax."""
     import re
-    keys = re.findall(r"File type|Object class|tiers\?|intervals: size|points: size|\b(?:intervals|points|item|class|name|xmin|xmax|size|text|number|mark)\b", joined)
-    want = LONG_GRAMMAR_HEADER + LONG_GRAMMAR_TIER
-    rep.check(keys == want, rule, fn.short, "key sequence", ok="keys appear in the order of Praat's long format: %s" % " ".join(want),
-              bad="long-form keys are emitted as %s, the format requires %s" % (keys, want))
-    hdr = [t for t in text if "ooTextFile" in t or "TextGrid" in t]
-    rep.check(hdr[:2] == ['File type = "ooTextFile"\n', 'Object class = "TextGrid"\n\n'], rule, fn.short, "file header", ok="two header lines followed by a blank line", bad="file header lines differ from the format: %r" % hdr[:2])
-    sfn = idx.get(R.SHORT_W)
-    stext = [c.value for n in ast.walk(sfn.node) if isinstance(n, ast.AugAssign) for c in ast.walk(n.value) if isinstance(c, ast.Constant) and isinstance(c.value, str)]
-    rep.check(stext[:2] == ['File type = "ooTextFile"\n', 'Object class = "TextGrid"\n\n'] and any("<exists>" in t for t in stext), rule, sfn.short, "file header", ok="short form: header, blank line, xmin, xmax, <exists>, size", bad="short-form header differs from the format")
-    rep.floor(rule, 3)
+
+    from ..absint import PyRaise
+    from ..index import Undecided
+
+    idx = common.ctx()
+    for spec, form in ((R.LONG_W, "long"), (R.SHORT_W, "short")):
+        fn = idx.get(spec)
+        for shape in R.DOC_SHAPES[:2]:
+            what = "%s form, generic textgrid [%s]" % (form, ", ".join("%s x%d" % sk for sk in shape))
+            try:
+                _, _, pieces = R.symbolic_document(spec, shape)
+            except (PyRaise, Undecided) as e:
+                rep.undecided(rule, fn.short, what, str(e))
+                continue
+            text = "".join(p if isinstance(p, str) else "\x00" for p in pieces)
+            ok_head = text.startswith('File type = "ooTextFile"\nObject class = "TextGrid"\n\n')
+            if form == "short":
+                rep.check(ok_head, rule, fn.short, what + ": file header", ok="the two header lines followed by a blank line", bad="the file does not start with Praat's two header lines and a blank line: %r" % text[:60], loc=fn.loc)
+                continue
+            keys = re.findall(r"File type|Object class|tiers\?|intervals: size|points: size|\b(?:intervals|points|item|class|name|xmin|xmax|size|text|number|mark)\b", text)
+            want = list(LONG_GRAMMAR_HEADER)
+            for kind, k in shape:
+                want += ["item", "class", "name", "xmin", "xmax"]
+                if kind == "interval":
+                    want += ["intervals: size"] + ["intervals", "xmin", "xmax", "text"] * k
+                else:
+                    want += ["points: size"] + ["points", "number", "mark"] * k
+            rep.check(ok_head and keys == want, rule, fn.short, what + ": key sequence", ok="header lines and keys in the order of Praat's long format",
+                      bad=("the file does not start with Praat's two header lines" if not ok_head else "long-form keys are written as %s, the format requires %s" % (keys, want)), loc=fn.loc)
+    rep.floor(rule, 4)
 
 
 def rule_one_dict(rep, rule="X-one-dict"):
